@@ -10,8 +10,13 @@ def run(tier, seed):
             'more (surplus queued) or fewer suggestions, mixed with CreateTrial (queued REQUESTED), completions, deletions; RAM and '
             'in-memory SQLite; model compared per step (response, datastore-call trace) and on the final stored state; '
             'non-trivial = at least 3 successful calls'),
+      pre=svcrun.regenerate_handler_sources,
       monitors=[svcrun.wrap(svcmon.c02_step), svcrun.wrap(svcmon.owner_step)], backends=('ram', 'sqlmem'), profile={'suggest': 0.5, 'fail': 0.05},
-      extra=long_studies)
+      extra=lambda rep, tier, seed, known, r: _both(long_studies(rep, tier, seed, known, r), many_trials(rep, tier, seed, known, r)))
+
+
+def _both(a, b):
+  return (((a[0] or '') + ' ' + (b[0] or '')).strip() or None), (a[1] or b[1])
 
 
 def long_studies(rep, tier, seed, known, r):
@@ -20,6 +25,36 @@ def long_studies(rep, tier, seed, known, r):
   return svcrun.service_part(rep, 'C02', r, tier, known, monitors=[svcrun.wrap(svcmon.c02_step), svcrun.wrap(svcmon.owner_step)], backends=('ram', 'sqlmem'),
                              nseq_quick=3, nseq_thorough=25, length=(45, 60), tag='long',
                              profile={'suggest': 0.75, 'fail': 0.02, 'delete_study': 0.0, 'owner2': 0.0})
+
+
+def many_trials(rep, tier, seed, known, r):
+  """Systematic: ONE study filled by suggestion rounds until its trial ids pass 10 (and 100 in the thorough tier), with
+  queued trials, completions and deletions of old trials in between; afterwards every worker still gets fresh, larger ids."""
+  from harness import svcmon
+
+  def seqgen(rr):
+    target = rr.choice([12, 14]) if tier == 'quick' else rr.choice([13, 24, 104])
+    seq = [('CreateStudy', 1, 1, False, 'SS_ACTIVE', [(1, True)])]
+    nxt = 1
+    while nxt <= target:
+      c, count = rr.choice([1, 2, 3]), rr.choice([2, 3])
+      extra = rr.choice([0, 0, 1])
+      seq.append(('SuggestTrials', 1, 1, c, count, ('deliver', [rr.randrange(100) for _ in range(count + extra)], [], [])))
+      ids = list(range(nxt, nxt + count))
+      nxt += count + extra
+      for t in ids:
+        seq.append(('CompleteTrial', 1, 1, t, [(1, rr.randrange(5))], rr.random() < 0.2))
+      if rr.random() < 0.3:
+        seq.append(('CreateTrial', 1, 1, rr.randrange(100), 'REQUESTED', [], []))
+        nxt += 1
+      if rr.random() < 0.25 and ids:
+        seq.append(('DeleteTrial', 1, 1, ids[0]))
+    for c in (1, 2, 3):
+      seq.append(('SuggestTrials', 1, 1, c, 2, ('deliver', [rr.randrange(100), rr.randrange(100)], [], [])))
+    seq.append(('ListTrials', 1, 1))
+    return seq
+  return svcrun.service_part(rep, 'C02', r, tier, known, monitors=[svcrun.wrap(svcmon.c02_step), svcrun.wrap(svcmon.owner_step)],
+                             backends=('ram', 'sqlmem'), nseq_quick=2, nseq_thorough=6, tag='many', seqgen=seqgen)
 
 
 def replay(path):
